@@ -35,9 +35,9 @@ func stepSpellings(s Step) []string {
 	case "[*]":
 		return []string{".*", "[ *]"}
 	case "[0]":
-		return []string{"[+0]", "[00]", "[ 0 ]", "[-0]", "[ +000 ]"}
+		return []string{"[+0]", "[00]", "[ 0 ]", "[-0]", "[ +000 ]", "[0000000000000000000000000]", "[-000000000000000000000000]"}
 	case "[1]":
-		return []string{"[+1]", "[01]", "[ 1 ]"}
+		return []string{"[+1]", "[01]", "[ 1 ]", "[+000000000000000000000001]"}
 	case "[-1]":
 		return []string{"[ -1 ]", "[-01]", "[-001 ]"}
 	case "[7001]":
@@ -51,7 +51,7 @@ func stepSpellings(s Step) []string {
 	case "[0,1:2]":
 		return []string{"[0 , 1 : 2]", "[+0,01:+2]", "[0,1:2:1]", "[0,1:2:]"}
 	case "[1:]":
-		return []string{"[1 :]", "[ 1: ]", "[01:]", "[1::]", "[1: :]", "[+1::1]", "[1 : : +1 ]"}
+		return []string{"[1 :]", "[ 1: ]", "[01:]", "[1::]", "[1: :]", "[+1::1]", "[1 : : +1 ]", "[0000000000000000000001::00000000000000000000001]"}
 	case "[0:2]":
 		return []string{"[0 : 2]", "[:2]", "[+0:02:1]", "[ :2: ]"}
 	case "[::-1]":
@@ -92,6 +92,15 @@ func filterSpellings(t string) []string {
 	}
 	// spaces inside the brackets and parentheses
 	add(strings.Replace(strings.Replace(t, "[?(", "[ ?( ", 1), ")]", " ) ]", 1))
+	// spaces inside every pair of parentheses of the expression
+	if strings.Count(t, "(") > 1 {
+		inner := t[3 : len(t)-2]
+		inner = strings.ReplaceAll(strings.ReplaceAll(inner, "(", "( "), ")", " )")
+		add("[?(" + inner + ")]")
+		inner2 := t[3 : len(t)-2]
+		inner2 = strings.ReplaceAll(strings.ReplaceAll(inner2, "(", "(  "), ")", "  )")
+		add("[?(" + inner2 + ")]")
+	}
 	// spaces around operators removed
 	x := t
 	for _, op := range []string{"==", "!=", "<=", ">=", "&&", "||", "=~"} {
